@@ -4,7 +4,7 @@ import ast
 from .framework import rule, Ob, fmt_trace, sql_events, call_events, values_in, role_of, within
 from .model import AnalysisError
 from .values import V
-from .rules_lock import core_entries, _is_row_write, _stmt_sig
+from .rules_lock import core_entries, _is_row_write, _stmt_sig, bind_roles
 from . import sql as sqlmod
 
 CASES = ('NULL', '<', '=', '>')     # expire_time relative to the clock
@@ -12,11 +12,12 @@ LIVE = {'NULL', '>'}
 EXPIRED = {'<', '='}
 
 # role of SQL statements that mention expire_time in their WHERE clause, by containing function
-X1_SQL_ROLES = {
+X1_TEMPLATE = {
     'core.Cache.get': 'visibility', 'core.Cache.__contains__': 'visibility', 'core.Cache.pop': 'visibility',
     'core.Cache.__delitem__': 'visibility',
-    'core.Cache._cull': 'removal', 'core.Cache.expire': 'removal', 'core.Cache._select_delete': 'removal',
+    '<cull>': 'removal', 'core.Cache.expire': 'removal', '<bulk>': 'removal',
 }
+X1_SQL_ROLES = {}
 X1_PY_FUNCS = ('touch', 'add', 'incr', 'pull', 'peek', 'peekitem')
 
 
@@ -194,6 +195,8 @@ def _window_class(trace, start, sel):
 
 @rule('X1', floor=12, title='one liveness predicate: every expiry comparison treats an item as live iff expire_time is NULL or > now')
 def x1(ctx):
+    X1_SQL_ROLES.clear()
+    X1_SQL_ROLES.update(bind_roles(ctx, X1_TEMPLATE))
     obs = []
     # ---------------- SQL side
     sites = {}
@@ -534,6 +537,8 @@ def _top_conj(w, col):
 # ---------------------------------------------------------------------- X4
 @rule('X4', floor=8, title='liveness is decided with a clock read after the write lock was obtained, not before waiting for it')
 def x4(ctx):
+    X1_SQL_ROLES.clear()
+    X1_SQL_ROLES.update(bind_roles(ctx, X1_TEMPLATE))
     """A visibility decision taken inside a transaction block must compare
     expire_time with a clock value read inside that block: the wait for the
     lock is unbounded (retry=True), and an item that expires during the wait
